@@ -637,11 +637,21 @@ class Interp:
         terms = []
         prefix = []
         n = min(len(a), len(b))
+        decided = False
         for i in range(n):
+            # python compares only the first pair of elements that differ
+            eq = self.eq_term(a[i], b[i])
+            if eq is True:
+                continue
             lt = self.compare(strict, a[i], b[i], node)
             lt = lt.t if isinstance(lt, SBool) else lt
             terms.append(self._and(prefix + [lt]))
-            prefix.append(self.eq_term(a[i], b[i]))
+            if eq is False:
+                decided = True
+                break
+            prefix.append(eq)
+        if decided:
+            return self.wrap_bool(self._or(terms))
         if op in ('lt',):
             tail = len(a) < len(b)
         elif op == 'le':
@@ -1253,6 +1263,15 @@ class Interp:
         if fname.startswith(DROPPED_CALL_PREFIXES) or '.log.' in fname:
             self.world.dropped.add(f'call {fname}(...)')
             return None
+        if isinstance(node.func, ast.Name) and node.func.id == 'super' and not node.args:
+            # zero-argument super(): the enclosing method's class and first parameter
+            e = env
+            while e is not None and '__class__' not in e.vars:
+                e = e.parent
+            if e is None or getattr(e, 'func', None) is None:
+                raise Unsupported('zero-argument super() outside method', node)
+            first = e.func.node.args.args[0].arg
+            return SuperProxy(e.vars['__class__'], e.vars[first])
         func = self.eval(node.func, env)
         args = []
         for a in node.args:
